@@ -1,7 +1,7 @@
 """C20 plugins optional and isolated - see DESIGN.md section 4 (C20)."""
 import ast
 
-from .common import Ctx, Finding, Result, need, TRUSTED_LOGGING
+from .common import Ctx, Finding, Result, need, TRUSTED_LOGGING, P
 from ..index import norm
 from .. import paths
 
@@ -133,6 +133,42 @@ def run(ctx: Ctx, tier: str) -> Result:
             res.ok("C20.LOAD", {"append only when active": norm(a), "at": lp.loc(a)})
         else:
             res.fail(Finding("C20.LOAD", lp.qname, a, lp.loc(a), "plugin appended without the is_active() test holding"))
+    # the set of plugins loaded is a function of the configuration: no in-place mutation of module-level lists
+    mod = lp.module
+    consts = {n for n, v in mod.consts.items() if isinstance(v, (ast.List, ast.Dict, ast.Set))}
+    for f in [x for x in ctx.prog.functions.values() if x.module is mod]:
+        aliases = set(consts)
+        for n in ctx.types.nodes_in(f, ast.Assign):
+            if isinstance(n.value, ast.Name) and n.value.id in aliases and isinstance(n.targets[0], ast.Name):
+                aliases.add(n.targets[0].id)
+        local_rebinds = {n.targets[0].id for n in ctx.types.nodes_in(f, ast.Assign)
+                         if isinstance(n.targets[0], ast.Name) and not (isinstance(n.value, ast.Name) and n.value.id in aliases)}
+        for n in ctx.types.nodes_in(f):
+            tgt = None
+            if isinstance(n, ast.AugAssign) and isinstance(n.target, ast.Name):
+                tgt = n.target.id
+            elif isinstance(n, ast.Call) and isinstance(n.func, ast.Attribute) and isinstance(n.func.value, ast.Name) and \
+                    n.func.attr in ("append", "extend", "insert", "remove", "pop", "clear", "update", "sort", "reverse"):
+                tgt = n.func.value.id
+            elif isinstance(n, (ast.Assign, ast.Delete)):
+                for x in (n.targets if isinstance(n, (ast.Assign, ast.Delete)) else []):
+                    if isinstance(x, ast.Subscript) and isinstance(x.value, ast.Name):
+                        tgt = x.value.id
+            if tgt is not None and tgt in aliases and tgt not in (local_rebinds - consts):
+                res.fail(Finding("C20.LOAD", f.qname, n, f.loc(n),
+                                 "the module-level plugin list `%s` is modified in place: plugins configured for one start leak into every "
+                                 "later start (loaded twice, or loaded although no longer configured)" % tgt))
+    gen_calls = [c for c in ctx.types.calls_in(lp) if any(x.name.endswith("plugin_generator") for x in ctx.types.resolve_call(c, lp).repo)]
+    if len(gen_calls) == 1 and gen_calls[0].args:
+        srcs = ctx.expand.expand(gen_calls[0].args[0], lp)
+        custom_p = P(lp, 1)
+        if all(("DEEP_PLUGINS" in x or "'deep.api.plugin" in x) for x in srcs) and any(custom_p in x for x in srcs):
+            res.ok("C20.LOAD", {"plugins to load": srcs[0][:120]})
+        else:
+            res.fail(Finding("C20.LOAD", lp.qname, gen_calls[0], lp.loc(gen_calls[0]), "the plugins to load are not `system plugins + configured plugins`: %s" % [x[:100] for x in srcs]))
+    else:
+        res.fail(Finding("C20.LOAD", lp.qname, "<__plugin_generator(DEEP_PLUGINS + custom)>", lp.loc(), "the loader does not iterate the configured plugins once"))
+
     sorted_by_order = False
     for c in ctx.types.calls_in(lp):
         tg = ctx.types.resolve_call(c, lp)
